@@ -215,7 +215,7 @@ theorem stats_bounded_of_calibration (rx : String → String → Bool) (env : En
     (h : calibrate rx env st 0 none samples = .ok qs)
     (hcont : ∀ c ∈ samples, ∀ n d, Py.dictGet? c n = some d → d.pr = .f32 ∧ ∀ v ∈ d.arr.data, |v| ≤ B) :
     ∀ n, StatName rx env st n → ∀ mn mx, Py.dictGet? qs n = some (some (mn, mx)) → StatOrd mn mx := by
-  rintro n ⟨sg', hsg', q, hq, k, scope, ops, fn, S, halg, a, ha, hane, t, hat, rfl, hc⟩ mn mx hget
+  rintro n ⟨sg', hsg', q, hq, k, scope, ops, fn, S, halg, a, ha, hane, t, hat, rfl, _, hc⟩ mn mx hget
   have hsg'' : sg' = sg := by rw [hone] at hsg'; simpa using hsg'
   subst hsg''
   have hsg0 : env.model.subgraphs[0]? = some sg' := by rw [hone]; rfl
